@@ -1,16 +1,49 @@
 (* Model/C16Run.v - case type and checker evaluated on harness-generated cases (C16) *)
-From ReqV Require Export Lib.Bytes Model.HeaderOrder.
+From ReqV Require Export Lib.Bytes Model.HeaderOrder Model.HeaderCollect.
 
 Inductive c16_case :=
 (* direct call of header.SortKeyValues(kvs, order); the slice afterwards is
    [nth i kvs | i <- perm] (indices keep the case files small) *)
 | SortCase (kvs : list kv) (order : list bytes) (perm : list nat)
 (* textproto.CanonicalMIMEHeaderKey(input) = obs *)
-| CanonCase (input obs : bytes).
+| CanonCase (input obs : bytes)
+(* a request through the real client: q = what the protocol writer received (captured by the
+   innermost transport wrapper), obs = the field list the origin saw, in wire order *)
+| WireCase (proto : nat) (q : creq) (obs : list line).
+
+Fixpoint ascending (l : list nat) : bool :=
+  match l with
+  | a :: ((b :: _) as r) => (a <=? b) && ascending r
+  | _ => true
+  end.
+
+Fixpoint take_while {A} (f : A -> bool) (l : list A) : list A :=
+  match l with x :: r => if f x then x :: take_while f r else [] | [] => [] end.
+Fixpoint drop_while_l {A} (f : A -> bool) (l : list A) : list A :=
+  match l with x :: r => if f x then drop_while_l f r else l | [] => [] end.
+
+Definition lines_eqb := list_eqb line_eqb.
+
+(* the regular block: exact when no map iteration is involved, otherwise equal up to the
+   canonical projection AND the wire must be sorted by rank (listed fields in list order) *)
+Definition regular_check (order : list bytes) (exact by_value : bool) (model obs : list line) : bool :=
+  if exact then lines_eqb model obs
+  else lines_eqb (canon_lines order by_value model) (canon_lines order by_value obs) &&
+       (is_nil order ||
+        let co := map canonical_key order in let n := length order in
+        ascending (map (fun x : line => rank_c co n (fst x)) obs)).
 
 Definition c16_check (c : c16_case) : bool :=
   match c with
   | SortCase kvs order perm =>
       list_eqb kv_eqb (sort_key_values kvs order) (map (fun i => nth i kvs ([], [])) perm)
-  | CanonCase i o => bytes_eqb (canonical_key i) o
+  | CanonCase i o => bytes_eqb (mime_key i) o
+  | WireCase proto q obs =>
+      let order := order_list (c_hdr q) in
+      match proto with
+      | 1 => regular_check order (is_nil order) false (h1_lines q) obs
+      | _ => let m := if proto =? 2 then h2_lines q else h3_lines q in
+             lines_eqb (take_while is_pseudo m) (take_while is_pseudo obs) &&
+             regular_check order false true (drop_while_l is_pseudo m) (drop_while_l is_pseudo obs)
+      end
   end.
